@@ -158,10 +158,68 @@ def _snapshot(seg):
     return out
 
 
+def _run_isa_history(case, out):
+    """ISA elements are never composite: a value is kept whole whatever it contains; a component designator is either refused
+    (segment unchanged) or written and read back without touching any other position"""
+    import pyx12.segment
+    from pyx12.errors import EngineError
+    vals = [v[0] if v else '' for v in case['init']][:16]
+    seg = pyx12.segment.Segment('ISA' + ''.join('*' + v for v in vals) + '~', '~', '*', ':')
+    model = list(vals)
+    for step, op in enumerate(case['ops']):
+        kind, with_id, ei, ci, val = op
+        if with_id not in (None, 'ISA'):
+            continue
+        ref = (with_id or '') + '%02d' % ei + ('-%d' % ci if ci else '')
+        before = [seg.get_value('%02d' % i) for i in range(1, len(seg) + 1)]
+        try:
+            if kind == 'set':
+                seg.set(ref, val)
+            else:
+                res = seg.get_value(ref)
+        except EngineError:
+            if not (ci and ci > 1):
+                out.fail('refused-own-designator', 'ISA step %d %s(%r)' % (step, kind, ref))
+                return
+            if [seg.get_value('%02d' % i) for i in range(1, len(seg) + 1)] != before:
+                out.fail('changed-on-refusal', 'ISA step %d %s(%r)' % (step, kind, ref))
+                return
+            continue
+        except Exception as e:
+            out.fail(core.exc_bucket(e, kind), 'ISA step %d %s(%r): %s' % (step, kind, ref, core.exc_detail(e)))
+            return
+        after = [seg.get_value('%02d' % i) for i in range(1, len(seg) + 1)]
+        if kind == 'set':
+            if ci and ci > 1:
+                # accepted: must read back, and no other element may have changed
+                if seg.get_value(ref) != val:
+                    out.fail('isa-component-write-lost', 'ISA step %d set(%r,%r) accepted, get_value = %r, element now %r (was %r)'
+                             % (step, ref, val, seg.get_value(ref), after[ei - 1] if ei <= len(after) else None, before[ei - 1] if ei <= len(before) else None))
+                    return
+                model = after
+                continue
+            while len(model) < ei:
+                model.append('')
+            model[ei - 1] = val
+            if after != model:
+                out.fail('snapshot', 'ISA step %d set(%r,%r): %r, model %r' % (step, ref, val, after, model))
+                return
+        else:
+            exp = model[ei - 1] if ei <= len(model) and not (ci and ci > 1) else None
+            if ci and ci > 1:
+                continue
+            if res != exp:
+                out.fail('get-value', 'ISA step %d get_value(%r) = %r, model %r' % (step, ref, res, exp))
+                return
+    out.classes.append('isa-segment')
+
+
 def _run_history(case, out):
     import pyx12.segment
     from pyx12.errors import EngineError
     sid = case['seg_id']
+    if sid == 'ISA':
+        return _run_isa_history(case, out)
     init = case['init']
     seg = pyx12.segment.Segment(sid + ''.join('*' + ':'.join(e) for e in init) + '~', '~', '*', ':')
     model = [list(e) for e in init]
@@ -373,7 +431,7 @@ def _hyp_segments(spec, seed):
 
     @st.composite
     def case(draw):
-        sid = draw(st.sampled_from(['TST', 'NM1', 'N3', 'SV1', 'N1', 'N10', 'B2']))
+        sid = draw(st.sampled_from(['TST', 'NM1', 'N3', 'SV1', 'N1', 'N10', 'B2', 'ISA']))
         init = [[draw(val) for _ in range(draw(st.sampled_from([1, 1, 1, 2, 3])))] for _ in range(draw(st.integers(0, 5)))]
         # the constructor keeps what it is given; make the last component of the initial text non-empty so that the
         # textual form and the list form coincide
